@@ -134,6 +134,13 @@ func (c *Ctx) rulePrunePred() {
 						sawERT = true
 						return true
 					}
+					// the defined type the method object belongs to (receiver aliases resolved)
+					if call := P.CallTo(x, "util.ExtractTypeName"); call != nil {
+						if _, callees := P.derives(call.Call.Args[0], func(ssa.Value) bool { return false }, 10); hasCallee(callees, "(*go/types.Signature).Recv") {
+							sawERT = true
+							return true
+						}
+					}
 					cs, isC := x.(*ssa.Const)
 					return isC && cs.Value != nil && cs.Value.ExactString() == `""`
 				}) && sawERT
@@ -440,6 +447,17 @@ func (c *Ctx) ruleTypeInfoHelpers() {
 					detail = "type resolution does not cover both T and *T through aliases"
 				}
 				c.check(detail == "", "ALIAS/TYPEINFO", "util."+name, P.Pos(ta.Pos()), "Named assertion on Unalias(t) and Unalias(ptr.Elem())", detail)
+			})
+		}
+		// the (package path, name) pair handed to the checkers denotes a package-level type
+		if name == "ExtractTypeInfo" {
+			pred := c.pkgLevelPred()
+			allInstrs(top, func(b *ssa.BasicBlock, ins ssa.Instruction) {
+				r, ok := ins.(*ssa.Return)
+				if !ok || len(r.Results) != 1 || isNilConst(r.Results[0]) {
+					return
+				}
+				c.check(hasLit(P.BlockGuards(b), pred), "PACKAGE-LEVEL", "util."+name, P.Pos(r.Pos()), "a type is identified only if its object is declared in the package scope", pkgLevelDetail)
 			})
 		}
 	}
